@@ -37,6 +37,7 @@ def run(ctx):
     ctx.step(register, ctx)
     ctx.step(unlink_first, ctx, "C05.unlink-first", False)
     ctx.step(no_early_free, ctx)
+    ctx.step(position_rule, ctx)
     ctx.step(reclaim, ctx)
     from . import c12
     ctx.step(c12.reentrancy_rule, ctx, "C05.reentrancy")
@@ -373,6 +374,31 @@ def who(ctx):
                     f.name in ("allocate_unique",) or f.rec == "gmlc::libguarded::detail::deallocator"
                 ctx.ob(rid, ok, f.loc(st), "list memory is freed only by unlock, ~rcu_list, deallocator and allocate_unique",
                        "" if ok else "freed in %s" % f.name, fn=f.label, inst=f.qname)
+
+
+def position_rule(ctx, rid="C05.position"):
+    """a node that was erased is waiting for its last readers and will then be freed: nothing may be linked next to it
+    any more.  An insertion that takes its place from an iterator tests node::deleted of that node (under the write
+    mutex) before it links - otherwise the retired node becomes reachable again through the new one and is freed under
+    the next traversal."""
+    ctx.rule(rid, "an insertion at an iterator position checks that the position has not been erased", floor=0)
+    for f in ctx.fb.functions(rec=RCU):
+        if f.kind in ("ctor", "dtor") or f.name == "erase":
+            continue
+        if not any(st["k"] == "CallExpr" and callee_fq(st) == "gmlc::libguarded::detail::allocate_unique" for st in f.stmts.values()):
+            continue
+        its = ["p:" + pd["name"] for pd in f.params if "iterator" in pd.get("type", "")]
+        used = [st for st in f.stmts.values() if st["k"] == "MemberExpr" and st["m"].get("name") == "m_current" and
+                path(f, f.s(st.get("base"))) in its]
+        if not used:
+            continue
+        tests = [st for st in f.stmts.values() if st["k"] == "MemberExpr" and st["m"].get("name") == "deleted"]
+        la = ctx.eng.locks(f)
+        ok = bool(tests) and all(f.pos_of(t) and la.holds(f.pos_of(t), "this.m_write_mutex", "X") for t in tests)
+        ctx.ob(rid, ok, f.loc(used[0]), "%s refuses a position whose node has been erased" % f.name, "" if ok else
+               "the node the iterator stands on is used as a neighbour without a test of node::deleted%s: a node another writer "
+               "erased a moment ago gets relinked, is reclaimed as scheduled, and traversals then walk freed memory"
+               % ("" if not tests else " under the write mutex"), fn=f.label, inst=f.qname)
 
 
 def no_early_free(ctx):
